@@ -258,6 +258,26 @@ impl Check for C11 {
                 }
             });
         }
+        // (i-5) text is geometry in user space as well: a run drawn under a translation equals the run
+        // drawn at the translated position under the identity (dyadic offsets: the positions are the
+        // same floats either way)
+        if font_available() {
+            let tr: [(f32, f32); 6] = [(3., 0.), (0., -2.), (5., 4.), (-4., 1.), (0.5, 0.25), (-6.5, 3.75)];
+            run.bound("text under translations", format!("3 runs x {} translations x 2 aa x 2 sources on 24x16: same pixels as the run at the translated position under the identity", tr.len()));
+            run.par(tr.len(), |s, l| {
+                let (tx, ty) = tr[s];
+                for (text, size, x, y) in [("Lo", 12.0f32, 4.0f32, 12.0f32), ("i.", 16.0, 9.0, 13.0), ("W", 9.0, 6.5, 9.25)] {
+                    for aa in [true, false] {
+                        for (src, mode) in [(white.clone(), BlendMode::SrcOver), (half.clone(), BlendMode::Xor)] {
+                            let o = Opts { mode, alpha: 1.0, aa };
+                            let a = Scene { w: 24, h: 16, dst: Dst::Distinct, ops: vec![Op::SetTransform([1., 0., 0., 1., tx, ty]), Op::Text(size, text.to_string(), x, y, src.clone(), o)] };
+                            let b = Scene { w: 24, h: 16, dst: Dst::Distinct, ops: vec![Op::Text(size, text.to_string(), x + tx, y + ty, src, o)] };
+                            one(run, 950 + s, l, "text-under-translation-vs-translated-position", a, b, false);
+                        }
+                    }
+                }
+            });
+        }
         // (i') invertible transforms with a tiny determinant (only a non-invertible T draws nothing):
         // user coordinates k times larger under scale 1/k
         let tiny: Vec<(f32, f32)> = vec![(4096., 4096.), (1., 1e7), (1e7, 1.), (1e4, 1e4), (1e-3, 1e9), (65536., 65536.)];
